@@ -47,6 +47,10 @@ type pegNode struct {
 	Logical bool // && / !! variants
 	Rule    *pegRule
 	id      int
+	// character classes: the explicit characters, ranges (pairs) and the inverted flag of the table entry
+	Chars    []rune
+	Ranges   []rune
+	Inverted bool
 }
 
 type pegRule struct {
@@ -156,6 +160,23 @@ func identName(x ast.Expr) string {
 		return id.Name
 	}
 	return ""
+}
+
+// runeList reads a []rune{...} composite literal of character literals.
+func runeList(x ast.Expr) []rune {
+	cl, ok := x.(*ast.CompositeLit)
+	if !ok {
+		return nil
+	}
+	var out []rune
+	for _, el := range cl.Elts {
+		if bl, ok := el.(*ast.BasicLit); ok && bl.Kind == token.CHAR {
+			if r, _, _, err := strconv.UnquoteChar(bl.Value[1:len(bl.Value)-1], '\''); err == nil {
+				out = append(out, r)
+			}
+		}
+	}
+	return out
 }
 
 func strLit(x ast.Expr) string {
@@ -274,6 +295,11 @@ func (g *pegGrammar) parseNode(x ast.Expr, r *pegRule) (*pegNode, error) {
 	case "charClassMatcher":
 		n.Kind = pkClass
 		n.Text = strLit(field("val"))
+		n.Chars = runeList(field("chars"))
+		n.Ranges = runeList(field("ranges"))
+		if id, ok := field("inverted").(*ast.Ident); ok && id.Name == "true" {
+			n.Inverted = true
+		}
 	case "anyMatcher":
 		n.Kind = pkAny
 	case "ruleIRefExpr":
@@ -381,8 +407,15 @@ func (e *Engine) actionFactsOf(fn string) *actionFacts {
 				if se.Sel.Name == "addErr" {
 					af.Aborts = true
 				}
-				// c.data.X(...)
+				// c.data.X(...), or d.X(...) where d is an alias of the parser data (by type)
+				isData := false
 				if inner, ok := se.X.(*ast.SelectorExpr); ok && inner.Sel.Name == "data" {
+					isData = true
+				} else if t := info.TypeOf(se.X); t != nil {
+					ts := strings.TrimPrefix(e.typeStr(t), "*")
+					isData = ts == "ParserCustomData" || ts == "ParserData"
+				}
+				if isData {
 					af.Calls = append(af.Calls, se.Sel.Name)
 					if (se.Sel.Name == "AddOp" || se.Sel.Name == "WriteCode") && len(u.Args) > 0 {
 						if id, ok := u.Args[0].(*ast.Ident); ok {
